@@ -128,7 +128,16 @@ func (st *State) assumeNoFork(c *Term) {
 func strArg(v Value) string {
 	s := v.(Str)
 	if s.B != nil {
-		unsupported("symbolic string where a concrete one is required")
+		// messages and tags may embed symbolic data (e.g. a tampered object key): render it as '?'
+		var sb strings.Builder
+		for _, b := range s.B {
+			if bi := b.(Int); bi.T == nil {
+				sb.WriteByte(byte(bi.C))
+			} else {
+				sb.WriteByte('?')
+			}
+		}
+		return sb.String()
 	}
 	return s.S
 }
